@@ -288,7 +288,7 @@ def tasks_for(tier):
             t.append(('link ratio %d, 3 symbolic bytes, gap %d cycles' % (ratio, gap), quick_task, {'ratio': ratio, 'nbytes': 3, 'gap': gap}))
     for ratio in ((4, 8) if quick else (4, 5, 6, 8, 12, 16)):
         for gap in ((0,) if quick else (0, 1, ratio)):
-            for stall in ((ratio,) if quick else (1, ratio, 3 * ratio)):
+            for stall in ((ratio, 3 * ratio) if quick and ratio == 4 else (ratio,) if quick else (1, ratio, 3 * ratio)):
                 t.append(('link ratio %d, 2 symbolic bytes, gap %d, symbolic consumer ready (stalls <= %d cycles)' % (ratio, gap, stall),
                           sym_task, {'ratio': ratio, 'nbytes': 2, 'gap': gap, 'stall': stall}))
     return t
